@@ -637,6 +637,67 @@ Section RO.
       else []
     end.
 
+  (* executable guards for the cumulative bounds: no section the index generation visits declares a length
+     shorter than its CID (cf. resume_sections_ok) *)
+  Fixpoint li_sections_ok (fuel : nat) (o : ReadOnly.qopts) (base : N) (src : bytes) (doff dsize pos : N) : bool :=
+    match fuel with
+    | O => true
+    | S f =>
+      match read_uv (drop pos src) with
+      | VOk len r1 n1 =>
+        if len =? 0 then true else
+        match cid_from_reader r1 with
+        | CfrOk n c p _ =>
+          if len <? n then false else
+          let keep := ReadOnly.q_storeid o || negb (is_identity p) in
+          if keep && (ReadOnly.q_maxcid o <? n) then true else
+          let npos := pos + n1 + len in
+          if two63 <=? base + npos then true
+          else if negb (dsize =? 0) && (dsize <=? npos - doff) then true
+          else li_sections_ok f o base src doff dsize npos
+        | _ => true
+        end
+      | _ => true
+      end
+    end.
+  Definition load_records_ok (o : ReadOnly.qopts) (base : N) (src : bytes) : bool :=
+    match read_header hdrdec (ReadOnly.q_maxh o) src with
+    | Err _ => true
+    | Ok (_, ver, rest, used) =>
+      if ver =? 1 then li_sections_ok (S (S (length src))) o base src 0 0 used
+      else if ver =? 2 then
+        match read_v2hdr rest with
+        | Err _ => true
+        | Ok (h, _) =>
+          if two63 <=? base + h_doff h then true
+          else
+            match read_header hdrdec (ReadOnly.q_maxh o) (drop (h_doff h) src) with
+            | Err _ => true
+            | Ok (_, v1, _, used1) =>
+              if negb (v1 =? 1) then true
+              else li_sections_ok (S (S (length src))) o base src (h_doff h) (h_dsize h) (h_doff h + used1)
+            end
+        end
+      else true
+    end.
+  (* NewReadOnly: the guard concerns the payload only when an index has to be generated *)
+  Definition ro_open_ok (o : ReadOnly.qopts) (file : bytes) : bool :=
+    match read_header hdrdec (ReadOnly.q_maxh o) file with
+    | Err _ => true
+    | Ok (_, ver, _, _) =>
+      if ver =? 1 then load_records_ok o 0 file
+      else if ver =? 2 then
+        match ReadOnly.new_reader hdrdec (ReadOnly.q_maxh o) file with
+        | Err _ => true
+        | Ok r =>
+          match ReadOnly.index_window r with
+          | Some _ => true
+          | None => load_records_ok o (ReadOnly.window_base r) (ReadOnly.data_window r)
+          end
+        end
+      else true
+    end.
+
   (* store.FindCid: per candidate offset a section buffer (ReadNode) or a CID digest buffer *)
   Fixpoint find_cid_allocs (view : bytes) (offs : list N) (key : bytes) (kp : cidp)
            (whole zeof : bool) (maxs : N) (readbytes : bool) : list N :=
